@@ -370,7 +370,7 @@ pub fn run(tier: Tier, seed: u64, replay: Option<Value>) -> i32 {
         tier,
         seed,
         "exploration",
-        "server started with a generated --requirepass and a pre-loaded dataset in three databases, one authenticated control connection. (a) enumerated: every command name the server dispatches (read from the source, including SYNC/PSYNC/REPLCONF/MONITOR/SUBSCRIBE/SHUTDOWN/CLIENT/DEBUG) with 0..4 arguments, lower/mixed-case and space-padded spellings, plus ~70 plausible attack forms, each on a fresh unauthenticated connection in seven contexts (alone; after PING; after a failed AUTH; third in a pipelined write; in the same write as a failing AUTH, a malformed AUTH, a PING plus two-argument AUTH). Oracle: exactly one error frame and no other byte; server alive; control connection still served; canonical dump of the dataset unchanged; PUBLISH to every channel the intruder could have named reports 0 receivers; INFO replication shows no replica; nothing reaches the intruder while the control connection writes. (b) generated histories of wrong passwords (prefix, extension, case changes, empty, padded, NUL/CRLF-suffixed, random binary, 64 KB) interleaved with commands, then the exact password: wrong ones are errors, the right one authenticates this connection only. Non-trivial = every enumerated (command form, context) pair and every history with at least one wrong AUTH; distinct by hash",
+        "server started with a generated password (on the command line, or - every second alphanumeric one - by a requirepass line in a configuration file, merged by the server's own Config::apply_cli_args) and a pre-loaded dataset in three databases, one authenticated control connection. (a) enumerated: every command name the server dispatches (read from the source, including SYNC/PSYNC/REPLCONF/MONITOR/SUBSCRIBE/SHUTDOWN/CLIENT/DEBUG) with 0..4 arguments, lower/mixed-case and space-padded spellings, plus ~70 plausible attack forms, each on a fresh unauthenticated connection in seven contexts (alone; after PING; after a failed AUTH; third in a pipelined write; in the same write as a failing AUTH, a malformed AUTH, a PING plus two-argument AUTH). Oracle: exactly one error frame and no other byte; server alive; control connection still served; canonical dump of the dataset unchanged; PUBLISH to every channel the intruder could have named reports 0 receivers; INFO replication shows no replica; nothing reaches the intruder while the control connection writes. (a') intruders streaming pipelined SETs while the control connection closes them all with CLIENT KILL in one write: no key may appear. (b) generated histories of wrong passwords (prefix, extension, case changes, empty, padded, NUL/CRLF-suffixed, random binary, 64 KB) interleaved with commands, then the exact password: wrong ones are errors, the right one authenticates this connection only. Non-trivial = every enumerated (command form, context) pair and every history with at least one wrong AUTH; distinct by hash",
     ));
     if let Some(r) = replay {
         let c = r.get("case").unwrap_or(&r);
@@ -468,6 +468,115 @@ pub fn run(tier: Tier, seed: u64, replay: Option<Value>) -> i32 {
             });
         }
     });
+    // connections being closed by an administrator: a connection that is on its way out is still
+    // unauthenticated (schedule-dependent: intruders stream writes while the control connection
+    // kills them all in one pipelined write)
+    {
+        let rounds = tier.pick(8u64, 80u64);
+        match Sut::start(&passwords[0]) {
+            Err(e) => ev.lock().unwrap().infra.push(e),
+            Ok(mut sut) => {
+                for round in 0..rounds {
+                    // a fresh administrator connection every round: where it sits in the server's
+                    // connection table relative to the intruders decides who is served first
+                    // (connection ids are sequential and sharded by id: a varying number of
+                    // throw-away connections moves the administrator through the table)
+                    for _ in 0..(round * 5 + seed) % 7 {
+                        let _ = sut.server.raw_client();
+                    }
+                    let mut admin = match sut.server.client() {
+                        Ok(c) => c,
+                        Err(e) => {
+                            ev.lock().unwrap().infra.push(e.to_string());
+                            break;
+                        }
+                    };
+                    let mut intruders: Vec<Client> = Vec::new();
+                    for _ in 0..(11 + (round * 3) % 6) {
+                        if let Ok(c) = sut.server.raw_client() {
+                            intruders.push(c);
+                        }
+                    }
+                    let mut kills = Vec::new();
+                    for c in intruders.iter() {
+                        if let Ok(a) = c.stream.local_addr() {
+                            kills.extend(crate::resp::encode_cmd(&["CLIENT", "KILL", "ADDR", &a.to_string()]));
+                        }
+                    }
+                    let stop = std::sync::atomic::AtomicBool::new(false);
+                    std::thread::scope(|sc| {
+                        for (vi, mut c) in intruders.drain(..).enumerate() {
+                            let stop = &stop;
+                            sc.spawn(move || {
+                                // never authenticates; keeps writes in flight and discards replies
+                                let _ = c.stream.set_nonblocking(true);
+                                let mut n = 0u64;
+                                let mut pending: Vec<u8> = Vec::new();
+                                let mut sink = [0u8; 65536];
+                                while !stop.load(std::sync::atomic::Ordering::Relaxed) {
+                                    use std::io::{Read, Write};
+                                    match c.stream.read(&mut sink) {
+                                        Ok(0) => return,
+                                        _ => {}
+                                    }
+                                    if pending.is_empty() {
+                                        for _ in 0..(if vi % 2 == 0 { 40 } else { 400 }) {
+                                            n += 1;
+                                            pending.extend(crate::resp::encode_cmd(&[b"SET".to_vec(), format!("pwned:{}:{}:{}", round, vi, n).into_bytes(), b"x".to_vec()]));
+                                        }
+                                    }
+                                    match c.stream.write(&pending) {
+                                        Ok(k) => {
+                                            pending.drain(..k);
+                                            // half of the intruders trickle, half flood
+                                            if vi % 2 == 0 {
+                                                std::thread::sleep(Duration::from_micros(300));
+                                            }
+                                        }
+                                        Err(e) if e.kind() == std::io::ErrorKind::WouldBlock => std::thread::sleep(Duration::from_micros(200)),
+                                        Err(_) => return,
+                                    }
+                                }
+                            });
+                        }
+                        std::thread::sleep(Duration::from_millis(250));
+                        // one write: all kills run in the same event-loop pass
+                        let _ = admin.send_raw(&kills);
+                        let _ = admin.drain_for(Duration::from_millis(300));
+                        stop.store(true, std::sync::atomic::Ordering::Relaxed);
+                    });
+                    std::thread::sleep(Duration::from_millis(100));
+                    // (a fresh connection: it looks at database 0, where the intruders wrote)
+                    let r = match sut.server.client() {
+                        Ok(mut fresh) => fresh.cmd(&["KEYS", "pwned:*"]),
+                        Err(e) => {
+                            ev.lock().unwrap().infra.push(e.to_string());
+                            break;
+                        }
+                    };
+                    let mut e = ev.lock().unwrap();
+                    e.evaluations += 1;
+                    e.count_label("kill-race-round", 1);
+                    e.nontrivial.insert(hash_debug(&("kill-race", round, seed)));
+                    match r {
+                        Reply::Frame(Frame::Array(v)) if v.is_empty() => {}
+                        Reply::Frame(Frame::Array(v)) => {
+                            e.violation(
+                                &format!("[kill-race] {} keys written by connections that never authenticated (they were being closed by CLIENT KILL while their SETs were in flight), e.g. {:?}", v.len(), v.first()),
+                                "write-by-unauthenticated-closing-connection",
+                                json!({"kind": "kill-race", "round": round, "note": "schedule-dependent"}),
+                            );
+                            break;
+                        }
+                        other => {
+                            e.infra.push(format!("kill-race: KEYS -> {:?}", other));
+                            break;
+                        }
+                    }
+                }
+            }
+        }
+    }
     // generated AUTH histories
     let nh = tier.pick(600u64, 10_000u64);
     let strat = auth_history();
